@@ -89,6 +89,7 @@ type World struct {
 	lowered    map[string]bool // collections that saw a lowering overwrite (C13)
 	churnStore *otherStore
 
+	deep     bool      // a full (cache-disturbing) comparison is in progress
 	visiting []*Handle // handles with a visit in flight (nested ops must not close them)
 
 	monPrevD         int64
@@ -183,6 +184,8 @@ func (w *World) run() {
 		}
 		if k := w.c.Cfg.CheckEvery; k > 0 && (i+1)%k == 0 {
 			w.checkAll()
+		} else {
+			w.cheapChecks()
 		}
 	}
 	w.opIdx = len(w.c.Ops)
@@ -1074,8 +1077,30 @@ func (w *World) checkItem(what string, h *Handle, c *g.Collection, it *g.Item, k
 
 // checkAll compares every open handle with its model.
 func (w *World) checkAll() {
-	save := w.opt.Plan
-	_ = save
+	w.deep = true
+	defer func() { w.deep = false }()
+	w.checkLive()
+	w.cheapChecks()
+}
+
+// cheapChecks are the oracles that do not disturb the store's cache state
+// (they read the call log, the hook walk, or a copy of the file); they run
+// after every op.
+func (w *World) cheapChecks() {
+	if w.opt.FreeCheck || w.rc != nil || (w.opt.TreeCheck && w.deep) {
+		w.structuralChecks()
+	}
+	if w.opt.Monitor {
+		w.monitorCheck()
+	}
+	if w.opt.Probe {
+		w.probe()
+	}
+}
+
+// checkLive re-reads every open handle completely.  It loads nodes and
+// (re-)caches items, so cases draw how often it runs (Config.CheckEvery).
+func (w *World) checkLive() {
 	if !w.orig.closed {
 		w.checkStore("original", w.orig)
 	}
@@ -1084,15 +1109,6 @@ func (w *World) checkAll() {
 	}
 	for _, o := range w.others {
 		o.check(w)
-	}
-	if w.opt.FreeCheck || w.opt.TreeCheck || w.rc != nil {
-		w.structuralChecks()
-	}
-	if w.opt.Monitor {
-		w.monitorCheck()
-	}
-	if w.opt.Probe {
-		w.probe()
 	}
 }
 
